@@ -65,8 +65,10 @@ type Chain struct {
 	closed  []*Block // closed[i] has height i+1
 	open    *Block
 	Log     []TxRecord
-	// Broadcasts counts BroadcastTxCommit calls over all clients (crash-point numbering).
+	// Broadcasts counts BroadcastTxCommit calls over all clients; PerName counts them per
+	// client name (crash-point numbering survives the replacement of a client object).
 	Broadcasts int
+	PerName    map[string]int
 	// OnBroadcast, when set, is called before a client broadcast is processed (the schedule
 	// may insert other transactions or close blocks first).
 	OnBroadcast func(from string, tx []byte)
@@ -74,7 +76,7 @@ type Chain struct {
 
 // New wraps an initialised application (InitChain already done) and opens block 1.
 func New(a *app.ShutterApp, chainID string) *Chain {
-	c := &Chain{App: a, ChainID: chainID}
+	c := &Chain{App: a, ChainID: chainID, PerName: map[string]int{}}
 	c.openBlock()
 	return c
 }
@@ -134,10 +136,10 @@ type Client struct {
 	client.Client // nil: any method not defined below panics
 	chain         *Chain
 	Name          string
-	// DropReplyAt: when > 0, the broadcast with that global number (Chain.Broadcasts after
-	// the increment) is applied and its reply is lost.
+	// DropReplyAt: when > 0, this party's broadcast with that number (Chain.PerName[Name]
+	// after the increment) is applied and its reply is lost.
 	DropReplyAt int
-	// FailBroadcastAt: when > 0, the broadcast with that global number fails before it
+	// FailBroadcastAt: when > 0, this party's broadcast with that number fails before it
 	// reaches the chain.
 	FailBroadcastAt int
 	Dead            bool
@@ -221,7 +223,8 @@ func (cl *Client) BroadcastTxCommit(_ context.Context, tx tmtypes.Tx) (*coretype
 	}
 	c := cl.chain
 	c.Broadcasts++
-	n := c.Broadcasts
+	c.PerName[cl.Name]++
+	n := c.PerName[cl.Name]
 	if cl.FailBroadcastAt > 0 && n == cl.FailBroadcastAt {
 		cl.Dead = true
 		return nil, ErrCrash
